@@ -59,8 +59,8 @@ mutual
     | .setReg r v => SettableReg r ∧ RvC V v
     | .units _ => True
     | .actAll _ => True
-    | .setDefault => True
-    | .action _ ops => FragOperands V ops
+    | .setDefault _ => True
+    | .action _ _ ops => FragOperands V ops
     | .get name => RvC V name
     | .wait => True
     | .timeAt _ => True
@@ -543,10 +543,10 @@ theorem stmt_stage (f : Nat) (ihRvs : RvToGoals V img K f) (rows cols : Option R
     refine (exec_color ht.2 ht.1 hc.right.head h).mono fun t2 ht2 => ?_
     simpa [Target, List.length_append, Nat.add_assoc] using ht2
 
-theorem stmt_setDefault (f : Nat) : StmtGoal img K .setDefault (f + 1) := by
+theorem stmt_setDefault_wait (f : Nat) : StmtGoal img K (.setDefault true) (f + 1) := by
   intro σ σ' o s pc exit stk sim hpc hc h ho
-  simp only [genStmt, resolve_ins, ins_length] at hc ⊢
-  simp only [execStmt] at h
+  simp only [genStmt, resolve_ins, ins_length, ↓reduceIte, List.cons_append, List.nil_append] at hc ⊢
+  simp only [execStmt, ↓reduceIte] at h
   split at h
   · rename_i σ2 hw
     have hn := device_outcome h ho
@@ -566,6 +566,21 @@ theorem stmt_setDefault (f : Nat) : StmtGoal img K .setDefault (f + 1) := by
         obtain ⟨rfl, rfl⟩ := h'
         exact hne _ hd)
 
+
+/-- `set default` inside a matrix block: no `WAIT` -/
+theorem stmt_setDefault_nowait (f : Nat) : StmtGoal img K (.setDefault false) (f + 1) := by
+  intro σ σ' o s pc exit stk sim hpc hc h ho
+  simp only [genStmt, resolve_ins, ins_length, Bool.false_eq_true, ↓reduceIte, List.nil_append] at hc ⊢
+  simp only [execStmt, Bool.false_eq_true, ↓reduceIte] at h
+  have hn := device_outcome h ho
+  subst hn
+  refine (exec_moveqReg _ .operand (by decide) sim hpc hc.head).trans fun t2 ht2 => ?_
+  exact exec_color ht2.2 ht2.1 hc.tail.head h
+
+theorem stmt_setDefault (f : Nat) (w : Bool) : StmtGoal img K (.setDefault w) (f + 1) := by
+  cases w
+  · exact stmt_setDefault_nowait f
+  · exact stmt_setDefault_wait f
 
 /-- the source-level state after the optional `MOVEQ … power` of `on` / `off` -/
 def powerSet (k : ActKind) (σ : S) : S :=
@@ -1108,10 +1123,10 @@ theorem operands_step (f : Nat) (ihO : OperandGoal V img K f) (ihOs : OperandsGo
       subst hb'
       exact ihO k op hops.1 σ σ' .brk s pc exit stk sim hpc hc'.left hop (Or.inr rfl)
 
-theorem stmt_action (f : Nat) (ihOs : OperandsGoal V img K f) (k : ActKind) (ops : Operands)
-    (hops : FragOperands V ops) : StmtGoal img K (.action k ops) (f + 1) := by
+theorem stmt_action_wait (f : Nat) (ihOs : OperandsGoal V img K f) (k : ActKind) (ops : Operands)
+    (hops : FragOperands V ops) : StmtGoal img K (.action k true ops) (f + 1) := by
   intro σ σ' o s pc exit stk sim hpc hc h ho
-  simp only [execStmt] at h
+  simp only [execStmt, ↓reduceIte] at h
   have h' : andThen ((powerSet k σ).device fun vm => execInstr default vm .wait)
       (fun s2 => execOperands f k ops s2) = (o, σ') := by
     rw [← andThen_eq]
@@ -1121,11 +1136,11 @@ theorem stmt_action (f : Nat) (ihOs : OperandsGoal V img K f) (k : ActKind) (ops
       resolve (genOperands k ops) (pc + ((powerCode k).length + 1)) exit) := by
     have := hc
     simp only [genStmt, resolve_append, resolve_ins, ins_length, List.length_append, List.length_cons,
-      List.length_nil] at this
+      List.length_nil, ↓reduceIte] at this
     cases k <;> exact this
   suffices hgoal : Exec img s (At K (Target pc ((powerCode k).length + 1 + (genOperands k ops).length)
       exit o) stk [] σ') by
-    simp only [genStmt, List.length_append, ins_length, List.length_cons, List.length_nil]
+    simp only [genStmt, List.length_append, ins_length, List.length_cons, List.length_nil, ↓reduceIte]
     cases k <;> exact hgoal
   refine (exec_powerSet k sim hpc hc'.left.left).trans fun t ht => ?_
   refine (exec_wait ht.2 ht.1 hc'.left.right.head hw).trans fun t2 ht2 => ?_
@@ -1134,6 +1149,34 @@ theorem stmt_action (f : Nat) (ihOs : OperandsGoal V img K f) (k : ActKind) (ops
   refine (ihOs k ops hops σ2 σ' o t2 _ exit stk ht2.2 (by rw [ht2.1]; congr 1) hcr hrest ho).mono
     fun t3 ht3 => ?_
   cases o <;> simpa [Target, Nat.add_assoc] using ht3
+
+/-- a command inside a matrix block: the same without the `WAIT` -/
+theorem stmt_action_nowait (f : Nat) (ihOs : OperandsGoal V img K f) (k : ActKind) (ops : Operands)
+    (hops : FragOperands V ops) : StmtGoal img K (.action k false ops) (f + 1) := by
+  intro σ σ' o s pc exit stk sim hpc hc h ho
+  simp only [execStmt, Bool.false_eq_true, ↓reduceIte] at h
+  have hrest : execOperands f k ops (powerSet k σ) = (o, σ') := by
+    cases k <;> exact h
+  have hc' : CodeAt img pc (powerCode k ++
+      resolve (genOperands k ops) (pc + (powerCode k).length) exit) := by
+    have := hc
+    simp only [genStmt, resolve_append, resolve_ins, ins_length, List.length_append, List.length_cons,
+      List.length_nil, Bool.false_eq_true, ↓reduceIte, List.append_nil, Nat.add_zero] at this
+    cases k <;> exact this
+  suffices hgoal : Exec img s (At K (Target pc ((powerCode k).length + (genOperands k ops).length)
+      exit o) stk [] σ') by
+    simp only [genStmt, List.length_append, ins_length, List.length_cons, List.length_nil,
+      Bool.false_eq_true, ↓reduceIte, Nat.add_zero]
+    cases k <;> exact hgoal
+  refine (exec_powerSet k sim hpc hc'.left).trans fun t ht => ?_
+  refine (ihOs k ops hops _ σ' o t _ exit stk ht.2 ht.1 hc'.right hrest ho).mono fun t3 ht3 => ?_
+  cases o <;> simpa [Target, Nat.add_assoc] using ht3
+
+theorem stmt_action (f : Nat) (ihOs : OperandsGoal V img K f) (k : ActKind) (w : Bool) (ops : Operands)
+    (hops : FragOperands V ops) : StmtGoal img K (.action k w ops) (f + 1) := by
+  cases w
+  · exact stmt_action_nowait f ihOs k ops hops
+  · exact stmt_action_wait f ihOs k ops hops
 
 
 /-! ## `if` -/
